@@ -133,6 +133,19 @@ TraceDrop ==
 TraceConv ==
   /\ ~dead /\ e.ev = "conv" /\ Keep
   /\ IF pc # "incall" THEN UNCHANGED vvars /\ Consume({"H:converter-outcome-outside-a-call"})
+     ELSE IF ~tracked       \* elements without destructor: no drop events, nothing to own
+     THEN /\ owned' = {} /\ pending' = 0
+          /\ IF e.kind = "converted"
+             THEN /\ cells' = [cells EXCEPT ![firstMoved + 1] = [k |-> "U", id |-> e.out]]
+                  /\ firstMoved' = firstMoved + 1 /\ outs' = Append(outs, e.out)
+                  /\ pc' = "loop" /\ UNCHANGED fail
+             ELSE IF e.kind = "abandoned"
+             THEN pc' = "loop" /\ UNCHANGED <<cells, firstMoved, outs, fail>>
+             ELSE /\ pc' = "cleanup" /\ fail' = [kind |-> e.kind, id |-> e.fid]
+                  /\ UNCHANGED <<cells, firstMoved, outs>>
+          /\ UNCHANGED <<flags, n, mismatch, hasbuf, firstTtt, dT, dU, payload, nextU, calls, buffer, result>>
+          /\ Consume(If(e.kind = "converted" /\ cells[firstMoved + 1].k # "dead",
+                        "C08:three-region-invariant-broken"))
      ELSE IF e.kind = "converted"
      THEN IF owned = {<<"U", e.out>>} /\ cells[firstMoved + 1].k = "dead"
           THEN \* ConvConverted composed with Store
